@@ -5,6 +5,13 @@
 #[verifier::external_body]
 #[derive(Copy, Clone)]
 pub struct Time { _p: u8 }
+// ASSUMED clock arithmetic (PROVED on the real Time by Kani, harness time_due_bucket_implies_expired): a deadline whose
+// storage bucket (deadline second + 1) is not after the current second has passed.
+pub broadcast axiom fn axiom_due_implies_expired(t: Time)
+    ensures !t.zero() && t.deadline_secs() + 1 <= clock_secs() ==> #[trigger] t.expired();
+
+/// the whole second of the clock reading of the call under verification
+pub uninterp spec fn clock_secs() -> u64;
 impl Time {
     pub uninterp spec fn zero(&self) -> bool;          // d == 0: the entry never expires
     pub uninterp spec fn deadline_secs(&self) -> u64;  // whole seconds since the epoch of created_at + d
@@ -15,6 +22,7 @@ impl Time {
     pub fn unix(&self) -> (r: u64) ensures r == self.deadline_secs() { unimplemented!() }
     #[verifier::external_body]
     pub fn is_expired(&self) -> (r: bool) ensures r == self.expired() { unimplemented!() }
+    /// Time::now(): no TTL, created at the current clock reading (assumed below 2^40 seconds, as in the Kani harnesses)
     #[verifier::external_body]
-    pub fn now() -> (r: Time) ensures r.zero() { unimplemented!() }
+    pub fn now() -> (r: Time) ensures r.zero(), r.deadline_secs() == clock_secs(), r.deadline_secs() < 0x0100_0000_0000 { unimplemented!() }
 }
